@@ -300,6 +300,11 @@ def check_helpers(chk, prog):
 def _is_op(v, op, name, other="n"):
     if v[0] != "app":
         return False
+    # saturating / checked forms of the same operation are accepted (no alarm for a more defensive helper)
+    if op == "Sub" and str(v[1]).endswith(("saturating_sub",)) and tuple(v[2]) == (("sym", name), ("sym", other)):
+        return True
+    if op == "Add" and str(v[1]).endswith(("saturating_add",)) and set(v[2]) == {("sym", name), ("sym", other)}:
+        return True
     if v[1] in (op, op + "Unchecked") and set(v[2]) == {("sym", name), ("sym", other)}:
         return v[1].startswith("Sub") is False or v[2][0] == ("sym", name)
     # tuple projection of a checked operation: .0(OpWithOverflow(...)) is represented as app(op, ..) already
